@@ -132,6 +132,16 @@ def check(ctx, rep: Report):
     # ---- WHO
     rep.rules["C14.WHO"] = "writers of _dict"
     allowed = {"__init__", "add", "discard"}
+    changed = True
+    while changed:      # private helpers of the allowed primitives
+        changed = False
+        for name, defs in ci.methods.items():
+            if name in allowed:
+                for n in ast.walk(defs[0].node):
+                    if isinstance(n, ast.Call) and isinstance(n.func, ast.Attribute) and ast.unparse(n.func.value) == "self" \
+                            and n.func.attr.startswith("_") and not n.func.attr.startswith("__") and n.func.attr not in allowed:
+                        allowed.add(n.func.attr)
+                        changed = True
     for name, defs in ci.methods.items():
         for n in walk_own(defs[0].node):
             hit = None
